@@ -1,29 +1,27 @@
-import AtreeModel.Codec.Cbor
-import AtreeModel.Gen.Consts
-import AtreeModel.Array.Slab
+import AtreeModel.Codec.Types
 /-
   Byte-exact encoders for the array slab kinds and the large-value slab, transcribed from
   array_data_slab_encode.go, array_metadata_slab_encode.go, storable_slab.go, flag.go,
   array_extradata.go, slab_id_storable.go, slab_id.go, encode.go, and — for the element and type
   info values the harness uses — harness/hx/values.go (`TV.Encode`, `TI.Encode`, `CTI.Encode`).
 
-  Not modelled here: inlined array/map children (`encodeAsInlined`), the shared inlined-extra-data
-  section, and all map slabs.
+  Second part: map slabs (map_data_slab_encode.go, map_metadata_slab_encode.go,
+  map_elements_encode.go, map_element_encode.go, map_extradata.go), inlined array / map / compact
+  map children (`encodeAsInlined`, `encodeAsInlinedMap`, `encodeAsInlinedCompactMap`), the shared
+  inlined-extra-data section (extradata.go, compactmap_extradata.go) and the harness's wrapper.
+
+  Where the Go encoder returns an ERROR (extra-data index above 255, digest level above
+  `maxDigestLevel`, a compact-map key missing from the cached key list) the bytes of the model are
+  unspecified; such slabs never occur in the traces and are excluded by the hypotheses of the theorems.
 -/
 namespace Atree.Codec
 open Atree Atree.Gen
-
-/-- Type info of the harness: `hx.TI` (a CBOR unsigned integer) or `hx.CTI` (tag 160 + unsigned). -/
-inductive TyInfo where
-  | plain (n : Nat)
-  | composite (n : Nat)
-deriving DecidableEq, Repr, Inhabited
 
 /-- `hx.tagCompositeTI` -/
 def tagCompositeTI : Nat := 160
 /-- `hx.tagGapValue`: marks a `TV` whose size is not reachable by a plain byte string. -/
 def tagGapValue : Nat := 161
-/-- `hx.TagSomeValue` (the one-level wrapper; not modelled, see Decode.lean) -/
+/-- `hx.TagSomeValue` (the one-level wrapper) -/
 def tagSomeValue : Nat := 165
 
 /-- `TI.Encode` = `EncodeUint64`; `CTI.Encode` = `EncodeTagHead(160)` then `EncodeUint64`. -/
@@ -118,29 +116,317 @@ def encodeStorableSlab (e : Elem) : Bytes :=
     maskStorable ||| maskSlabAnySize ||| flagIf (elemIsRef e) maskSlabHasPointers ] ++
   encodeElem e
 
+
+/-! ## Map slabs, inlined children, the inlined-extra-data section -/
+
+/-- `MapExtraData.Encode`: `EncodeArrayHead(3)`, the type info as `encTy` writes it, count, seed -/
+def encodeMapExtraWith (encTy : TyInfo → Bytes) (x : MapExtra) : Bytes :=
+  head 4 mapExtraDataLength ++ encTy x.ty ++ head 0 x.count ++ head 0 x.seed
+
+/-- `MapExtraData.Encode(enc, defaultEncodeTypeInfo)` -/
+def encodeMapExtra (x : MapExtra) : Bytes := encodeMapExtraWith encodeTy x
+
+/-- the eight digest bytes of each hkey -/
+def encodeHkeys (hkeys : List Nat) : Bytes := hkeys.flatMap (beBytes digestSize)
+
+/-! ### `InlinedExtraData` (the encoder's state) -/
+
+/-- `TV.Less`: payload first, then size -/
+def keyLess (a b : Nat × Nat) : Bool := a.2 < b.2 || (a.2 == b.2 && a.1 < b.1)
+
+/-- insertion into a list sorted by `keyLess` -/
+def insertKey (k : Nat × Nat) : List (Nat × Nat) → List (Nat × Nat)
+  | [] => [k]
+  | x :: xs => if keyLess x k then x :: insertKey k xs else k :: x :: xs
+
+/-- the keys in the order of `fieldNameSorter` (what `makeCompactMapTypeID` joins) -/
+def sortKeys (ks : List (Nat × Nat)) : List (Nat × Nat) := ks.foldr insertKey []
+
+/-- first index satisfying `p` -/
+def findIdxFrom {α : Type} (p : α → Bool) : List α → Nat → Option Nat
+  | [], _ => none
+  | x :: xs, i => if p x then some i else findIdxFrom p xs (i + 1)
+
+/-- `addArrayExtraData`: array extra data is deduplicated by its encoded type info -/
+def addArrayXD (xs : List XD) (ty : TyInfo) : Nat × List XD :=
+  match findIdxFrom (fun x => match x with | .arr t => encodeTy t == encodeTy ty | _ => false) xs 0 with
+  | some i => (i, xs)
+  | none => (xs.length, xs ++ [.arr ty])
+
+/-- `addMapExtraData`: never deduplicated -/
+def addMapXD (xs : List XD) (x : MapExtra) : Nat × List XD := (xs.length, xs ++ [.map x])
+
+/-- `makeCompactMapTypeID` compared for equality: encoded type info and the sorted key IDs -/
+def sameCompactType (ty : TyInfo) (keys : List (Nat × Nat)) : XD → Bool
+  | .cmap x' _ keys' => encodeTy x'.ty == encodeTy ty && sortKeys keys' == sortKeys keys
+  | _ => false
+
+/-- `addCompactMapExtraData`: `(index, cached keys, state)` -/
+def addCompactXD (xs : List XD) (x : MapExtra) (hkeys : List Nat) (keys : List (Nat × Nat)) :
+    Nat × List (Nat × Nat) × List XD :=
+  match findIdxFrom (sameCompactType x.ty keys) xs 0 with
+  | some i =>
+    match xs[i]? with
+    | some (.cmap _ _ cached) => (i, cached, xs)
+    | _ => (i, keys, xs)
+  | none => (xs.length, keys, xs ++ [.cmap x hkeys keys])
+
+/-- the key of a single element that `canBeEncodedAsCompactMap` accepts: a `ComparableStorable`
+    that is not a slab reference — with the harness's values, a `TV` -/
+def compactKey : MEl → Option (Nat × Nat)
+  | .single (.mk (.val s p) _) => some (s, p)
+  | _ => none
+
+/-- `canBeEncodedAsCompactMap` for an inlined map with `hkeyElements`: composite type, only single
+    elements with comparable keys (the Go code sizes its key slice by `extraData.Count`: a count
+    that differs from the number of elements is outside the model, see the findings) -/
+def compactKeys (x : MapExtra) (elems : List MEl) : Option (List (Nat × Nat)) :=
+  if x.ty.isComposite ∧ x.count = elems.length then elems.mapM compactKey else none
+
+/-- the five fixed bytes after which an inlined slab writes its slab index: tag number, array head
+    of 3 elements, extra data index as a fixed-size `uint8` -/
+def inlinedHead (tag i : Nat) : Bytes := [0xd8, tag, 0x83, 0x18, i % 256]
+
+/-- `enc.CBOR.EncodeBytes(slabID.index[:])` -/
+def encodeIdx (idx : Nat) : Bytes := head 2 SlabIndexLength ++ beBytes SlabIndexLength idx
+
+mutual
+/-- `Storable.Encode(enc)`: the bytes written and the encoder's `InlinedExtraData` afterwards -/
+def encSt : Stor → List XD → Bytes × List XD
+  | .val size pay, xs => (encodeElem { size := size, pay := .val pay }, xs)
+  | .ref id, xs => (encodeElem { size := slabIDStorableSize, pay := .ref id }, xs)
+  | .some s, xs =>
+    let r := encSt s xs
+    (tagHead8 tagSomeValue ++ r.1, r.2)
+  | .arr ty idx es, xs =>
+    -- `ArrayDataSlab.encodeAsInlined`
+    let a := addArrayXD xs ty
+    let r := encSts es a.2
+    (inlinedHead CBORTagInlinedArray a.1 ++ encodeIdx idx ++ arrayHead16 es.length ++ r.1, r.2)
+  | .map x idx (.hkey level hkeys elems), xs =>
+    match compactKeys x elems with
+    | some keys =>
+      -- `encodeAsInlinedCompactMap`: the values in the order of the cached keys
+      let a := addCompactXD xs x hkeys keys
+      let r := a.2.1.foldl (fun (acc : Bytes × List XD) k =>
+                  let v := encFind k elems acc.2
+                  (acc.1 ++ v.1, v.2)) ([], a.2.2)
+      (inlinedHead CBORTagInlinedCompactMap a.1 ++ encodeIdx idx ++ head 4 a.2.1.length ++ r.1, r.2)
+    | none =>
+      -- `encodeAsInlinedMap`
+      let a := addMapXD xs x
+      let r := encMElList elems a.2
+      (inlinedHead CBORTagInlinedMap a.1 ++ encodeIdx idx ++
+        [0x83, level % 256] ++ bytesHead16 (hkeys.length * 8) ++ encodeHkeys hkeys ++
+        arrayHead16 elems.length ++ r.1, r.2)
+  | .map x idx (.single level elems), xs =>
+    let a := addMapXD xs x
+    let r := encSElList elems a.2
+    (inlinedHead CBORTagInlinedMap a.1 ++ encodeIdx idx ++
+      [0x83, level % 256, 0x40] ++ arrayHead16 elems.length ++ r.1, r.2)
+/-- the elements of an array, in order -/
+def encSts : List Stor → List XD → Bytes × List XD
+  | [], xs => ([], xs)
+  | s :: ss, xs =>
+    let r := encSt s xs
+    let r' := encSts ss r.2
+    (r.1 ++ r'.1, r'.2)
+/-- `encodeCompactMapValues`, one cached key: the value stored under the first equal key
+    (the keys of a map are distinct) -/
+def encFind (k : Nat × Nat) : List MEl → List XD → Bytes × List XD
+  | [], xs => ([], xs)
+  | .single (.mk (.val s p) v) :: rest, xs =>
+    if (s, p) = k then encSt v xs else encFind k rest xs
+  | _ :: rest, xs => encFind k rest xs
+/-- `singleElement.Encode` -/
+def encSEl : SEl → List XD → Bytes × List XD
+  | .mk k v, xs =>
+    let r := encSt k xs
+    let r' := encSt v r.2
+    (0x82 :: (r.1 ++ r'.1), r'.2)
+/-- `element.Encode` -/
+def encMEl : MEl → List XD → Bytes × List XD
+  | .single e, xs => encSEl e xs
+  | .inl els, xs =>
+    let r := encMEls els xs
+    (tagHead8 CBORTagInlineCollisionGroup ++ r.1, r.2)
+  | .ext id, xs =>
+    (tagHead8 CBORTagExternalCollisionGroup ++ encodeElem { size := slabIDStorableSize, pay := .ref id }, xs)
+/-- `hkeyElements.Encode` / `singleElements.Encode` -/
+def encMEls : MEls → List XD → Bytes × List XD
+  | .hkey level hkeys elems, xs =>
+    let r := encMElList elems xs
+    ([0x83, level % 256] ++ bytesHead16 (hkeys.length * 8) ++ encodeHkeys hkeys ++
+      arrayHead16 elems.length ++ r.1, r.2)
+  | .single level elems, xs =>
+    let r := encSElList elems xs
+    ([0x83, level % 256, 0x40] ++ arrayHead16 elems.length ++ r.1, r.2)
+def encMElList : List MEl → List XD → Bytes × List XD
+  | [], xs => ([], xs)
+  | e :: es, xs =>
+    let r := encMEl e xs
+    let r' := encMElList es r.2
+    (r.1 ++ r'.1, r'.2)
+def encSElList : List SEl → List XD → Bytes × List XD
+  | [], xs => ([], xs)
+  | e :: es, xs =>
+    let r := encSEl e xs
+    let r' := encSElList es r.2
+    (r.1 ++ r'.1, r'.2)
+end
+
+/-! ### `InlinedExtraData.Encode` -/
+
+/-- Go's string comparison on the encoded type infos: bytewise lexicographic -/
+def bytesLt : Bytes → Bytes → Bool
+  | [], [] => false
+  | [], _ :: _ => true
+  | _ :: _, [] => false
+  | a :: as, b :: bs => a < b || (a == b && bytesLt as bs)
+
+def insertBytes (k : Bytes) : List Bytes → List Bytes
+  | [] => [k]
+  | x :: xs => if bytesLt k x then k :: x :: xs else x :: insertBytes k xs
+
+/-- `sort.Strings` -/
+def sortBytes (l : List Bytes) : List Bytes := l.foldr insertBytes []
+
+/-- the scan of `findDuplicateTypeInfo` over the sorted list, `prev` being the previous string and
+    `emitted` whether it has been recorded as a duplicate: every string that occurs more than once,
+    once, in sorted order -/
+def dupScan (prev : Bytes) (emitted : Bool) : List Bytes → List Bytes
+  | [] => []
+  | x :: rest =>
+    if x == prev then (if emitted then dupScan prev true rest else prev :: dupScan prev true rest)
+    else dupScan x false rest
+
+/-- `findDuplicateTypeInfo`: the encoded type infos that occur more than once -/
+def findDuplicateTypeInfo (xs : List XD) : List Bytes :=
+  if xs.length < 2 then []
+  else
+    match sortBytes (xs.map (fun x => encodeTy x.ty)) with
+    | [] => []
+    | a :: rest => dupScan a false rest
+
+/-- the type info of an extra-data entry as the closure inside `InlinedExtraData.Encode` writes it:
+    as is, or as a reference into the duplicate list -/
+def encodeTyRef (dups : List Bytes) (ty : TyInfo) : Bytes :=
+  match findIdxFrom (· == encodeTy ty) dups 0 with
+  | some i => tagHead8 CBORTagTypeInfoRef ++ head 0 i
+  | none => encodeTy ty
+
+/-- `TV.Encode` of a compact-map key -/
+def encodeKey (k : Nat × Nat) : Bytes := encodeElem { size := k.1, pay := .val k.2 }
+
+/-- one entry: tag number, then `ExtraData.Encode(enc, encodeTypeInfo)` -/
+def encodeXD (dups : List Bytes) : XD → Bytes
+  | .arr ty => head 6 CBORTagInlinedArrayExtraData ++ head 4 arrayExtraDataLength ++ encodeTyRef dups ty
+  | .map x => head 6 CBORTagInlinedMapExtraData ++ encodeMapExtraWith (encodeTyRef dups) x
+  | .cmap x hkeys keys =>
+    head 6 CBORTagInlinedCompactMapExtraData ++ head 4 compactMapExtraDataLength ++
+      encodeMapExtraWith (encodeTyRef dups) x ++
+      head 2 (hkeys.length * digestSize) ++ encodeHkeys hkeys ++
+      head 4 keys.length ++ keys.flatMap encodeKey
+
+/-- `InlinedExtraData.Encode` -/
+def encodeIED (xs : List XD) : Bytes :=
+  let dups := findDuplicateTypeInfo xs
+  head 4 inlinedExtraDataArrayCount ++
+    head 4 dups.length ++ dups.flatten ++
+    head 4 xs.length ++ xs.flatMap (encodeXD dups)
+
+/-- the inlined-extra-data section of a slab: present iff the element encoder collected anything -/
+def encodeIEDSection (xs : List XD) : Bytes := if xs.isEmpty then [] else encodeIED xs
+
+/-! ### standalone slabs -/
+
+/-- `ArrayDataSlab.Encode` with general elements -/
+def encodeArrData (a : ArrData) : Bytes :=
+  let r := encSts a.elems []
+  let hasNext := decide (a.next ≠ SlabID.undef)
+  [ ArrayDataSlab_Encode_version * 16 ||| flagIf hasNext maskHasNextSlabID ||| flagIf (!r.2.isEmpty) maskHasInlinedSlabs,
+    maskArrayData ||| flagIf (anyPtrSts a.elems) maskSlabHasPointers ||| flagIf a.ty.isSome maskSlabRoot ] ++
+  (match a.ty with | some t => encodeExtraData t | none => []) ++
+  encodeIEDSection r.2 ++
+  (if hasNext then encodeSlabID a.next else []) ++
+  arrayHead16 a.elems.length ++ r.1
+
+/-- `MapDataSlab.Encode` (standalone) -/
+def encodeMapData (s : MapData) : Bytes :=
+  let r := encMEls s.els []
+  let hasNext := decide (s.next ≠ SlabID.undef)
+  [ MapDataSlab_Encode_version * 16 ||| flagIf hasNext maskHasNextSlabID ||| flagIf (!r.2.isEmpty) maskHasInlinedSlabs,
+    (if s.group then maskCollisionGroup else maskMapData) ||| flagIf s.els.hasPtr maskSlabHasPointers |||
+      flagIf s.anySize maskSlabAnySize ||| flagIf s.extra.isSome maskSlabRoot ] ++
+  (match s.extra with | some x => encodeMapExtra x | none => []) ++
+  encodeIEDSection r.2 ++
+  (if hasNext then encodeSlabID s.next else []) ++
+  r.1
+
+/-- one child header of a map index slab: slab index (8), first key (8), size (2) -/
+def encodeMChildHdr (h : MChildHdr) : Bytes :=
+  beBytes SlabIndexLength h.id.idx ++ beBytes digestSize h.firstKey ++ beBytes 2 h.size
+
+/-- `MapMetaDataSlab.Encode` -/
+def encodeMapMeta (m : MapMeta) : Bytes :=
+  [ MapMetaDataSlab_Encode_version * 16,
+    maskMapMeta ||| flagIf m.extra.isSome maskSlabRoot ] ++
+  (match m.extra with | some x => encodeMapExtra x | none => []) ++
+  beBytes SlabAddressLength m.id.addr ++ beBytes 2 m.childHdrs.length ++
+  m.childHdrs.flatMap encodeMChildHdr
+
+/-- `StorableSlab.Encode` with a general storable (the Go encoder fails if the storable contains an
+    inlined slab: `enc.hasInlinedExtraData()`) -/
+def encodeStorableSlabG (s : Stor) : Bytes :=
+  [ StorableSlab_Encode_version * 16,
+    maskStorable ||| maskSlabAnySize ||| flagIf s.hasPtr maskSlabHasPointers ] ++
+  (encSt s []).1
+
 /-- A slab as the codec sees it (what `DecodeSlab` returns / `EncodeSlab` takes). -/
 inductive Slab where
   | data (ty : Option TyInfo) (s : DataSlab)
   | index (ty : Option TyInfo) (m : MetaSlab Unit)
   | storable (id : SlabID) (e : Elem)
-deriving Repr
+  /-- array data slab with at least one element that is not a plain value / slab reference -/
+  | adata (a : ArrData)
+  | mdata (s : MapData)
+  | mindex (m : MapMeta)
+  /-- large-value slab whose storable is not a plain value / slab reference -/
+  | storableG (id : SlabID) (s : Stor)
 
 /-- `EncodeSlab` -/
 def encodeSlab : Slab → Bytes
   | .data ty s => encodeDataSlab (ty.getD default) s
   | .index ty m => encodeMetaSlab (ty.getD default) m
   | .storable _ e => encodeStorableSlab e
+  | .adata a => encodeArrData a
+  | .mdata m => encodeMapData m
+  | .mindex m => encodeMapMeta m
+  | .storableG _ s => encodeStorableSlabG s
 
 /-- `Slab.ByteSize()` -/
 def Slab.byteSize : Slab → Nat
   | .data _ s => s.hdr.size
   | .index _ m => m.hdr.size
   | .storable _ e => versionAndFlagSize + e.size
+  | .adata a => a.size
+  | .mdata m => m.size
+  | .mindex m => m.size
+  | .storableG _ s => versionAndFlagSize + s.size
 
-/-- length of the root's extra-data section (0 for non-roots) -/
+/-- length of the root's extra-data section (0 for non-roots) plus, for the kinds that can have
+    one, the inlined-extra-data section -/
 def Slab.extraDataLen : Slab → Nat
   | .data ty s => if s.root then (encodeExtraData (ty.getD default)).length else 0
   | .index ty m => if m.root then (encodeExtraData (ty.getD default)).length else 0
   | .storable _ _ => 0
+  | .adata a =>
+    (match a.ty with | some t => (encodeExtraData t).length | none => 0) +
+      (encodeIEDSection (encSts a.elems []).2).length
+  | .mdata s =>
+    (match s.extra with | some x => (encodeMapExtra x).length | none => 0) +
+      (encodeIEDSection (encMEls s.els []).2).length
+  | .mindex m => match m.extra with | some x => (encodeMapExtra x).length | none => 0
+  | .storableG _ _ => 0
 
 end Atree.Codec
